@@ -45,3 +45,19 @@ RUNNERS = {
     "C03": ("isa_check", "main", ("C03",)),
     "C04": ("isa_check", "main", ("C04",)),
 }
+RUNNERS["C08"] = ("regfile_check", "main", ())
+RUNNERS["C05"] = ("branch_check", "main", ())
+CHECKS.append({
+    "id": "C05", "engine": "pysym", "level": "translation_validation", "design_ref": "DESIGN.md section 4 / C05",
+    "technique": "symbolic execution at a symbolic 20-bit address: z3 compares InstructionInfo branch targets with the PC the real emulator reaches; call/return pairs as 2-instruction symbolic runs",
+    "level_text": "For every (prefix, opcode, length) class the address, operand bytes, flags, registers and memory are symbolic; z3 decides that the PC reached equals the reported target for the taken/not-taken outcome (or addr+len when no branch is reported), for all addresses incl. page boundaries. CALL;RET, CALLF;RETF and IR;RETI are run as two-instruction symbolic programs and z3 decides PC/S/C,Z/IMR restoration.",
+    "level_note": _PY_NOTE,
+})
+CHECKS.append({
+    "id": "C08", "engine": "pysym", "level": "other", "design_ref": "DESIGN.md section 4 / C08",
+    "technique": "inductive step decided by z3: one/two symbolic writes by name from an arbitrary symbolic register-file state through the real Registers/CPURegistersSnapshot, all reads compared with a z3 alias/width spec",
+    "level_text": "z3 decides, for all 32-bit written values and all prior register-file states satisfying the representation invariant, that every read returns the specified alias/width/flag value, that the invariant is re-established (so the step extends to write sequences of any length) and that a snapshot applied to a fresh file reproduces every read. Python register file only in this revision; the Rust half is listed as outside the claim until the rsym engine carries it.",
+    "level_note": _PY_NOTE,
+})
+_claimed = {c["id"] for c in CHECKS} | {"C16"}
+NOT_APPLICABLE[:] = [n for n in NOT_APPLICABLE if n["property_id"] not in {c["id"] for c in CHECKS}]
